@@ -9,6 +9,7 @@ from harness.impl import gwrun
 
 ID = "C05"
 PROP_FILE = "C05.v"
+SOFT_PINS = "core"
 TRANSLATORS = ["unicode_tables", "tables"]
 RULE = ("half grammar-generated histories restricted to the property's scope (controller values without ';', line breaks, "
         "trailing white space; inbound lines without embedded line feed), half directed request/reply scenarios (report "
